@@ -110,6 +110,8 @@ def to_yaml(v, path="", safe=True):
         return {to_yaml_key(k): to_yaml(x, f"{path}[{k!r}]", safe) for k, x in v.items()}
     if isinstance(v, (list, tuple)):
         return [to_yaml(x, f"{path}[{i}]", safe) for i, x in enumerate(v)]
+    if S.is_np_scalar(v):
+        raise S.Raised("RepresenterError", f"numpy scalar {v!r} reaches the YAML document at {path} (written with a python-specific tag that safe_load refuses)")
     if isinstance(v, PLAIN):
         return v
     if isinstance(v, (S.OpaqueObj, S.ExtVal, S.FuncVal)):
@@ -230,6 +232,10 @@ def seq_norm(v):
         return [seq_norm(x) for x in v]
     if isinstance(v, dict):
         return {k: seq_norm(x) for k, x in v.items()}
+    if isinstance(v, S.NpInt):
+        return int(v)
+    if isinstance(v, S.NpFrac):
+        return Fraction(v)
     return v
 
 
@@ -406,6 +412,18 @@ def _job(spec):
             if d:
                 problems.append(f"yaml via stream: {d}")
             if not problems:
+                # repeated cycles may alternate formats: the object loaded from YAML goes through tar
+                try:
+                    p3 = VPath(fs, "/results/from_yaml.tar")
+                    ev.call(ev.getattr(back, "dump_tar", None), [p3], {})
+                    back3 = ev.call(ev.getattr(S.ClassVal(ev, out_cls), "load_tar", None), [p3], {})
+                    d = diff_desc(ref, describe_output(back3, names))
+                    if d:
+                        problems.append(f"yaml then tar cycle: {d}")
+                except S.Raised as e:
+                    site, construct, stmt = sweep.locate(proj, e.node)
+                    problems.append(f"an output loaded from YAML cannot go through a tar cycle: {e.etype}: {e.msg[:120]} at `{stmt[:60]}` ({construct})")
+            if not problems:
                 d = history(ev, out, back, ref, names, out_cls, fs, fmt, spec)
                 if d:
                     problems.append(f"yaml: {d}")
@@ -429,6 +447,17 @@ def _job(spec):
             except S.Raised as r:
                 if r.etype != "ValueError":
                     problems.append(f"wrong suffix ends in {r.etype}")
+            if not problems:
+                # repeated cycles may alternate formats: the object loaded from tar goes through YAML
+                try:
+                    doc3 = ev.call(ev.getattr(back, "dump_yaml", None), [], {})
+                    back3 = ev.call(ev.getattr(S.ClassVal(ev, out_cls), "load_yaml", None), [doc3], {})
+                    d = diff_desc(ref, describe_output(back3, names))
+                    if d:
+                        problems.append(f"tar then yaml cycle: {d}")
+                except S.Raised as e:
+                    site, construct, stmt = sweep.locate(proj, e.node)
+                    problems.append(f"an output loaded from tar cannot go through a YAML cycle: {e.etype}: {e.msg[:120]} at `{stmt[:60]}` ({construct})")
             if not problems:
                 d = history(ev, out, back, ref, names, out_cls, fs, fmt, spec)
                 if d:
